@@ -5,7 +5,6 @@ import (
 	"fmt"
 	"html"
 	"strings"
-	"unicode/utf8"
 
 	"github.com/textwire/textwire/v2/ctx"
 	"github.com/textwire/textwire/v2/fail"
@@ -13,6 +12,10 @@ import (
 )
 
 const defaultCharTrim = "\t \n\r"
+
+// maxResultLen is the longest string that functions
+// taking a count (like repeat and decimal) may produce
+const maxResultLen = 1 << 30
 
 // strLenFunc returns the length of the given string
 func strLenFunc(_ *ctx.EvalCtx, receiver object.Object, _ ...object.Object) (object.Object, error) {
@@ -149,10 +152,16 @@ func strTruncateFunc(_ *ctx.EvalCtx, receiver object.Object, args ...object.Obje
 	}
 
 	val := receiver.(*object.Str).Value
+	chars := []rune(val)
 	limit := int(firstArg.Value)
 
-	if limit >= utf8.RuneCountInString(val) {
+	if limit >= len(chars) {
 		return &object.Str{Value: val}, nil
+	}
+
+	// a negative limit keeps no characters
+	if limit < 0 {
+		limit = 0
 	}
 
 	ellipsis := "..."
@@ -168,7 +177,7 @@ func strTruncateFunc(_ *ctx.EvalCtx, receiver object.Object, args ...object.Obje
 		}
 	}
 
-	newVal := val[:firstArg.Value] + ellipsis
+	newVal := string(chars[:limit]) + ellipsis
 
 	return &object.Str{Value: newVal}, nil
 }
@@ -204,7 +213,7 @@ func strAtFunc(_ *ctx.EvalCtx, receiver object.Object, args ...object.Object) (o
 		index = len(chars) + index
 	}
 
-	if index >= len(chars) {
+	if index < 0 || index >= len(chars) {
 		return &object.Nil{}, nil
 	}
 
@@ -276,7 +285,19 @@ func strRepeatFunc(_ *ctx.EvalCtx, receiver object.Object, args ...object.Object
 	}
 
 	val := receiver.(*object.Str).Value
-	repeated := strings.Repeat(val, int(firstArg.Value))
+	times := int(firstArg.Value)
+
+	// a negative count repeats nothing
+	if times < 0 {
+		times = 0
+	}
+
+	if len(val) > 0 && times > maxResultLen/len(val) {
+		msg := fmt.Sprintf(fail.ErrFuncResultTooLarge, "repeat", object.STR_OBJ)
+		return nil, errors.New(msg)
+	}
+
+	repeated := strings.Repeat(val, times)
 
 	return &object.Str{Value: repeated}, nil
 }
